@@ -53,6 +53,10 @@ if [[ " $STAGES " == *" check "* ]]; then
   (cd /verif && VERIF_REPO=$WT VERIF_OUT=$SCR timeout 3600 ./check $P --tier ${SEED_TIER:-quick} --jobs ${SEED_CHECK_JOBS:-6}) > $OUT/check_seeded.log 2>&1; R[check_exit]=$?
   sed -i "s#$SCR#<scratch>#g" $OUT/check_seeded.log
 fi
+for A in ${SEED_ALSO:-}; do     # further checks (of other properties) that are expected to see the change
+  (cd /verif && VERIF_REPO=$WT VERIF_OUT=$SCR timeout 3600 ./check $A --tier ${SEED_TIER:-quick} --jobs ${SEED_CHECK_JOBS:-6}) > $OUT/check_seeded_$A.log 2>&1; echo "also_$A=$?" > $OUT/also_$A.txt
+  sed -i "s#$SCR#<scratch>#g" $OUT/check_seeded_$A.log
+done
 git -C /repo worktree remove --force $WT; rm -rf $SCR
 : > $OUT/result.txt; for k in demo_clean_exit demo_seeded_exit tests_exit check_exit; do echo -n "$k=${R[$k]:-skipped} " >> $OUT/result.txt; done; echo >> $OUT/result.txt
 echo "$P-$V: $(cat $OUT/result.txt)"
